@@ -14,7 +14,6 @@ var notApplicable = []naEntry{
 	{"C01", "check under construction"}, {"C02", "check under construction"},
 	{"C04", "check under construction"}, {"C07", "check under construction"},
 	{"C10", "check under construction"},
-	{"C13", "check under construction"}, {"C14", "check under construction"},
 }
 
 func init() {
@@ -121,5 +120,26 @@ func init() {
 		Explanation: "DOCNUMS-DEFINED: phi-aware check that no nil-error return of mergeToWriter carries a nil map. DOCNUMS-SHAPE: enumerates every acyclic path through one iteration of the per-document loop (mergeStoredAndRemapSegment) and of the per-segment loop (mergeStoredAndRemap): exactly one store table[docNum] per path, the sentinel exactly on the drops.Contains edge with the counter unchanged, otherwise the counter which advances by exactly one; each segment iteration fills then appends exactly one make([]uint64, seg.footer.numDocs); counter threaded from 0 through the fill loop / callee result; zero-survivor branch builds all-dropped tables. DOCNUMS-PUBLISHED: Merger.WriteTo stores merge's result into the field DocumentNumbers returns; Merge/merge pass every segment and the caller's drops unchanged; docDropped folds to MaxInt64; footer.numDocs = computeNewDocCount. STORED-OFFSET-SOURCE: every stored-offset index entry is coder.Size() taken right before coder.Add of the same document.",
 		NotCovered:  "that the content of a surviving document is found at its reported number (value property); bitmaps that violate the input contract",
 		Uses:        []RuleUse{{"DOCNUMS-DEFINED", ""}, {"DOCNUMS-SHAPE", ""}, {"DOCNUMS-PUBLISHED", ""}, {"STORED-OFFSET-SOURCE", ""}},
+	})
+}
+
+func init() {
+	prop(&Property{
+		ID:          "C13",
+		Title:       "Reusing iterators, postings lists and readers never changes results",
+		Technique:   "static analysis: store census per re-initialiser (every field of every reusable struct re-established or listed with a reason), SSA typestate (init-before-read), must-store-before-successful-return for chunk caches, provenance-based singleton guard",
+		Level:       "Static rules showing that no state CAN carry over from a previous use — the structural content of the property — for every sequence of lookups: each reusable struct's re-initialiser is checked field by field (fail-closed on new fields). Equality of results itself is a value property and is not decided.",
+		Explanation: "RESET-COMPLETE checks the re-initialisers of PostingsList, PostingsIterator, chunkedIntDecoder, docValueReader (cloneInto), chunkedIntCoder, chunkedContentCoder, interim, docVisitState and visitDocumentCtx: whole-struct clear + only sanitised restores, or every field stored/Reset on every path, whole-range zeroing of retained slices. INIT-BEFORE-READ shows a postings list is always re-initialised before read(). CACHE-COHERENT shows every chunk loader re-establishes all chunk-derived fields before a successful return, STATE-AFTER-FALLIBLE that it does so only after the fallible steps. SINGLETON-GUARD shows writes can never reach the shared empty singletons.",
+		NotCovered:  "equality of results with fresh objects (value property); correctness of what the re-initialised object then computes",
+		Uses:        []RuleUse{{"RESET-COMPLETE", ""}, {"INIT-BEFORE-READ", ""}, {"CACHE-COHERENT", ""}, {"STATE-AFTER-FALLIBLE", ""}, {"SINGLETON-GUARD", ""}, {"BITMAP-OWNERSHIP", ""}},
+	})
+	prop(&Property{
+		ID:          "C14",
+		Title:       "Builder output depends only on its input, not on history or concurrency",
+		Technique:   "static analysis: field-by-field reset census of the pooled builder state, re-extension sites of pooled slices, escape analysis of fields handed to the segment, dominance of the pool Put by a successful reset, map-range order-insensitivity patterns, no writes to package-level state on the build path",
+		Level:       "Static rules showing the pooled builder state cannot influence a later build and concurrent builds share nothing mutable: every field reset or entry-assigned, every re-extension exposes only sanitised/overwritten elements, escaping fields re-established fresh, Put only after a successful reset, map iteration order cannot reach the output, no global writes. Byte equality itself and determinism of dependencies are not decided.",
+		Explanation: "RESET-COMPLETE(interim) over all fields of the builder state; RE-EXTENSION over every s.F = s.F[:n] site of a pooled slice; ESCAPE-FRESH for the fields and bytes that escape into the returned Segment; POOL-DISCIPLINE for interimPool.Put; CARRIED-ESTIMATE shows the only deliberately surviving values reach nothing but a buffer size hint; MAP-ORDER shows every range over a map on the build/merge path has an order-insensitive body; NO-GLOBAL-STATE shows no function reachable from New writes package-level state.",
+		NotCovered:  "byte equality itself; determinism of vellum/roaring/zstd",
+		Uses:        []RuleUse{{"RESET-COMPLETE", ""}, {"RE-EXTENSION", ""}, {"ESCAPE-FRESH", ""}, {"POOL-DISCIPLINE", ""}, {"CARRIED-ESTIMATE", ""}, {"NO-GLOBAL-STATE", ""}, {"MAP-ORDER", ""}},
 	})
 }
